@@ -354,7 +354,7 @@ PROPS["C01"] = {
 PROPS["C05"]["verus"] = ["c05_wal_reader.rs.in", "c05_wal_lemmas.rs.in", "c05_wal_fs.rs.in"]
 PROPS["C05"]["technique"] = "Verus contracts on the extracted WAL code: the reader equals a recursive reference parser for all byte strings (with termination); torn-tail theorem over the reader / codec contracts (a cut at any byte yields exactly the complete entries); over a ghost file system, open / append_payload / rotate / truncate_before / read_entries_after / last_sequence_* keep the log invariant (clean active segment, every sequence number on disk and the flushed mark below next_seq, increasing numbers) and open restarts above both the disk and the mark; Kani complete harnesses for the header codec"
 PROPS["C05"]["assumptions"] += [
-    "file system shims: read_dir + sort gives the segments by id; append-mode write_all writes everything or a prefix; set_len keeps a prefix; remove_file removes one file; flushed_seq file read as a value",
+    "file system shims: read_dir + sort gives the segments by id; append-mode write_all writes everything or a prefix; set_len keeps a prefix; remove_file removes one file; the flushed_seq mark file: persist_flushed_seq is std::fs::write (truncate, then write) -- a crash inside it leaves an empty or short file, which load_flushed_seq (unit) reads as 0, never as a value above the last completely persisted mark; the op-level units model a persist as atomic and a lower mark only causes re-delivery (that step is argued, not mechanised)",
     "facts imported into c05_wal_fs from the other two C05 groups: appending a complete frame to a clean segment keeps it clean and appends one entry (theorem_torn_tail, k = |frame|); the re-encoded length of what the reader returns is a clean prefix of the file (lemma_valid_prefix + codec contract)",
     "payloads are at most u32::MAX bytes; segment sizes, segment ids and sequence numbers stay far from overflow",
     "after a failed WAL write (I/O error) the log object must be reopened before further appends: the code does not enforce this (flagged; WAL disk faults are outside the crash model of C05)",
